@@ -400,6 +400,18 @@ func (e *Engine) doAssert(st *State, cond *Term, label string) {
 	neg := e.ts.Not(cond)
 	q := append(append([]*Term(nil), st.pc...), neg)
 	r, m := e.solver.Check(q, true)
+	if e.cross != nil && r != Unknown {
+		// cross-solver tier: the verdict query is re-decided by a second solver
+		r2, _ := e.cross.Check(q, false)
+		e.res.CrossChecked++
+		if r2 != Unknown && r2 != r {
+			e.res.CrossDisagree++
+			e.res.note(fmt.Sprintf("SOLVER DISAGREEMENT on assertion %s: primary %s, cross %s", label, r, r2))
+			e.res.Inconclusive = append(e.res.Inconclusive, "solver disagreement on assertion "+label)
+		} else if r2 == Unknown {
+			e.res.CrossUnknown++
+		}
+	}
 	switch r {
 	case Unsat:
 		e.res.Discharged++
